@@ -38,6 +38,18 @@ EXTRA = [
 ]
 
 
+DEEP = [
+    'select ' + ' - '.join(f'a{i}' for i in range(260)) + ' from t',
+    'select ' + ' + '.join(f'a{i}' for i in range(400)) + ' from t',
+    'select * from t where ' + ' and '.join(f'a{i} = {i}' for i in range(300)),
+    'select * from t where ' + ' or '.join(f'a{i} = {i}' for i in range(300)),
+    'select ' + 'f(' * 120 + 'a' + ')' * 120 + ' from t',
+    'select ' + '(' * 150 + 'a' + ')' * 150 + ' from t',
+    'select ' + ' || '.join(f'a{i}' for i in range(260)) + ' from t',
+    'select * from t where a in (' + ', '.join(str(i) for i in range(2000)) + ')',
+]
+
+
 def floors(tier):
     return {'calls': 20000, 'len:dialect_names': 7, 'fallback_taken': 300, 'unsupported_off': 300, 'len:statement_classes': 30}
 
@@ -81,7 +93,7 @@ def run_shard(ctx):
     from mindsdb_sql.render.sqlalchemy_render import SqlalchemyRender
     acc = ctx.acc
     renders = {n: SqlalchemyRender(n) for n in NAMES}
-    base = [('extra', s) for s in EXTRA] + base_statements(ctx.seed, 3000 if ctx.tier == 'quick' else 30000)
+    base = [('deep', s) for s in DEEP] + [('extra', s) for s in EXTRA] + base_statements(ctx.seed, 3000 if ctx.tier == 'quick' else 30000)
     idx = -1
     for bi, (label, text) in enumerate(base):
         for dialect in ('mindsdb', 'mysql', 'sqlite'):
@@ -98,7 +110,23 @@ def run_shard(ctx):
             except Exception:
                 continue
             acc.add('statement_classes', type(tree).__name__)
-            names = NAMES if label == 'extra' or bi % 5 == 0 else [NAMES[(bi + k) % 7] for k in range(2)]
+            names = NAMES if label in ('extra', 'deep') or bi % 5 == 0 else [NAMES[(bi + k) % 7] for k in range(2)]
+            if label == 'deep':
+                acc.count('deep_trees')
+                # deepcopy of such a tree would overflow the harness itself: every call gets a freshly parsed tree
+                for name in names:
+                    for method, failback in (('get_string', True), ('get_string', False), ('get_exec_params', True), ('get_exec_params', False)):
+                        t = parse_sql(text, dialect)
+                        acc.ev()
+                        acc.count('calls')
+                        outcome, sig, det = contract(renders[name], t, method, failback)
+                        if outcome == 'violation':
+                            sig = dict(sig, statement=type(tree).__name__)
+                            det.update({'text': text[:200] + '...', 'parse_dialect': dialect, 'render_dialect': name, 'method': method, 'failback': failback, 'deep': True})
+                            acc.fail(sig, det)
+                        elif outcome == 'unsupported':
+                            acc.count('unsupported_off')
+                continue
             for name in names:
                 r = renders[name]
                 # each call gets its own fresh copy as well as the shared tree, alternating, so that a mutation by an
